@@ -17,7 +17,7 @@ FAIL_PATTERNS = [
     r"simplifies to false", r"failed to simplify down to true", r"unreachable",
     r"possible truncation", r"cannot show invariant holds", r"not satisfied before loop",
     r"not satisfied at end of loop", r"might not be allowed", r"expression simplifies to false",
-    r"assert_by_compute", r"compute_only",
+    r"assert_by_compute", r"compute_only", r"evaluates to false", r"expression simplifies to",
 ]
 UNDECIDED_PATTERNS = [r"[Rr]esource limit", r"rlimit", r"timed? ?out", r"solver .* (crashed|unknown)"]
 
@@ -76,7 +76,7 @@ def run(file, rlimit=None, threads=4, extra=None, timeout=1800):
     fails, undec, other = [], [], []
     res["aborted_early"] = bool(vr.get("encountered-vir-error"))
     if (not vr or vr.get("encountered-vir-error")) and not any(
-            re.search(p, d["msg"]) for d in errors for p in (r"simplifies to false", r"failed to simplify down to true")):
+            re.search(p, d["msg"]) for d in errors for p in (r"simplifies to false", r"failed to simplify down to true", r"evaluates to false", r"expression simplifies to")):
         res["status"] = "tool-error"
         res["reason"] = "; ".join(d["msg"] for d in errors[:5]) or "verus produced no verification result (rc=%s)" % rc
         return res
